@@ -135,6 +135,9 @@ func dump(p *eng.Prog, fn *ssa.Function) {
 			switch x := in.(type) {
 			case *ssa.If:
 				nc := eng.Normalize(x.Cond)
+				if os.Getenv("OBSA_DEEP") != "" {
+					nc = eng.NormalizeDeep(x.Cond)
+				}
 				fmt.Printf("    IF [%s]==%v  -> T:b%d F:b%d   @%s\n", nc.Base, nc.Pol, b.Succs[0].Index, b.Succs[1].Index, p.Pos(x.Cond.Pos()))
 			case ssa.CallInstruction:
 				fmt.Printf("    %s   args=%s @%s\n", eng.InstrStr(in), argsStr(x.Common()), p.Pos(in.Pos()))
